@@ -99,6 +99,42 @@ Proof. vm_compute. reflexivity. Qed.
 Example C02_ex_abs_wf : abs_wf (parse [47;97;47;46;46;47;99]).
 Proof. split; [discriminate|apply parse_wf]. Qed.
 
+(* ===== a segment is '..' only when it is EXACTLY '..' =====
+   "with any mix of '..', '.'": the quantifier also contains segments that merely LOOK like '..' or '.' -- decorated with
+   blanks, TABs, NBSP or any other code point before / after (dot dot blank, blank dot dot, dot dot TAB).  `name_seg x` = x is
+   non-empty, contains no '/', and is neither "." nor "..".  Every such segment is an ordinary name: pushed, never popped, and
+   handed to the backend unchanged (no trimming between the '..' test and the backend), for every base, every working
+   directory, every sequence of names and every decoration w. *)
+Theorem C02_names_are_kept : forall base cwd l, abs_wf cwd -> Forall name_seg l -> l <> [] ->
+  get_paths base cwd (SLASH :: join [SLASH] l) = Some (mkp (anchor base) (parts base ++ l), mkp 1 l).
+Proof. exact get_paths_names_kept. Qed.
+Print Assumptions C02_names_are_kept.
+
+Theorem C02_decorated_dotdot_is_a_name_r : forall w, w <> [] -> nosep SLASH w -> name_seg (dotdot ++ w).
+Proof. exact decorated_dotdot_name_r. Qed.
+Print Assumptions C02_decorated_dotdot_is_a_name_r.
+
+Theorem C02_decorated_dotdot_is_a_name_l : forall w, w <> [] -> nosep SLASH w -> name_seg (w ++ dotdot).
+Proof. exact decorated_dotdot_name_l. Qed.
+Print Assumptions C02_decorated_dotdot_is_a_name_l.
+
+Theorem C02_decorated_dotdot_not_folded : forall base cwd w l, abs_wf cwd -> w <> [] -> nosep SLASH w -> Forall name_seg l ->
+  get_paths base cwd (SLASH :: join [SLASH] ((dotdot ++ w) :: l))
+  = Some (mkp (anchor base) (parts base ++ (dotdot ++ w) :: l), mkp 1 ((dotdot ++ w) :: l)).
+Proof. exact decorated_dotdot_not_folded. Qed.
+Print Assumptions C02_decorated_dotdot_not_folded.
+
+Example C02_ex_blank_dotdot :   (* base /srv/ftp, cwd /, path "<dot dot blank>/outside.txt" -> /srv/ftp/<dot dot blank>/outside.txt *)
+  get_paths (parse [47;115;114;118;47;102;116;112]) (parse [47]) [46;46;32;47;111;117;116;115;105;100;101;46;116;120;116]
+  = Some (mkp 1 [[115;114;118];[102;116;112];[46;46;32];[111;117;116;115;105;100;101;46;116;120;116]], mkp 1 [[46;46;32];[111;117;116;115;105;100;101;46;116;120;116]]).
+Proof. vm_compute. reflexivity. Qed.
+Example C02_ex_tab_nbsp_dotdot : (* cwd /pub, path "..<TAB>/<blank>../.<NBSP>/../x" -> /pub/'..<TAB>'/'<blank>..'/x *)
+  get_paths (parse [47;115;114;118;47;102;116;112]) (parse [47;112;117;98]) [46;46;9;47;32;46;46;47;46;160;47;46;46;47;120]
+  = Some (mkp 1 [[115;114;118];[102;116;112];[112;117;98];[46;46;9];[32;46;46];[120]], mkp 1 [[112;117;98];[46;46;9];[32;46;46];[120]]).
+Proof. vm_compute. reflexivity. Qed.
+Example C02_ex_name_seg : name_seg [46;46;32] /\ name_seg [46;32] /\ name_seg [32;46;46].
+Proof. repeat split; try discriminate. Qed.
+
 (* ===== Windows flavour of base_path (pathlib.PureWindowsPath) =====
    FULL STATEMENT (does not hold): for every base, cwd, s: get_paths_win base cwd s = WOk real virt
    implies wconfined base real = true /\ wlocated base real virt = true.
